@@ -95,6 +95,8 @@ fn run_ledger_once(c: &TCase, t: &mut Triples) -> (Result<u64, Violation>, ledge
 }
 
 fn run_ledger(c: &TCase, stats: &mut Stats) -> Result<u64, Violation> {
+    // API-surface probe (outside the ledger region): two SendTendrils never alias one buffer
+    tendril_hist::send_tendril_alias_probe().map_err(|f| Violation::new(&f.class, f.detail))?;
     let mut t = Triples { counts: [[[0; 3]; 3]; N_KINDS as usize] };
     let (res, rep, panicked) = run_ledger_once(c, &mut t);
     flush_triples(&t, stats);
@@ -235,7 +237,7 @@ impl World for TendrilWorld {
         candidates(&parse(case)).iter().map(emit).collect()
     }
     fn rule(&self) -> String {
-        let base = "history = seeded sequence of 4..120 operations from the whole safe Tendril API (30 operation kinds) over a pool of 6 tendrils of one format (UTF8, Bytes, ASCII, Latin1, WTF8) and atomicity (NonAtomic, Atomic), lengths biased to 0,7,8,9,15,16,17,31-33,63-65 and occasional 100-600, offsets biased to the ends; non-trivial = at least 3 operations; distinct = distinct hash of (format, atomicity, operation list)";
+        let base = "history = seeded sequence of 4..120 operations from the whole safe Tendril API (32 operation kinds incl. read_to_tendril from a scripted reader and Extend/FromIterator with iterators whose size_hint is wrong) over a pool of 6 tendrils of one format (UTF8, Bytes, ASCII, Latin1, WTF8) and atomicity (NonAtomic, Atomic), lengths biased to 0,7,8,9,15,16,17,31-33,63-65 and occasional 100-600, one history in 150 around buffers of 4 KiB..3 MiB, offsets biased to the ends and to the far end of u32; non-trivial = at least 3 operations; distinct = distinct hash of (format, atomicity, operation list)";
         match self.prop {
             TProp::C11 => format!("{base}; after EVERY operation every live tendril is compared with its Vec<u8> model, checked operations must fail exactly when the model says so, and content must stay valid for the format"),
             TProp::C12 => format!("{base}; the history runs inside an allocation-ledger region (global allocator with live table, red zones, poison + quarantine): double free, free with a different layout, red-zone damage, write after free and blocks still live after all tendrils are dropped are violations"),
@@ -259,7 +261,7 @@ impl World for TendrilWorld {
         self.prop == TProp::C12
     }
     fn expected_probes(&self) -> Vec<&'static str> {
-        let mut v = vec!["transition_small_to_large-owned", "transition_large-owned_to_shared", "transition_shared_to_large-owned", "op_push_tendril", "op_try_subtendril", "op_push_big", "op_read_to_tendril"];
+        let mut v = vec!["transition_small_to_large-owned", "transition_large-owned_to_shared", "transition_shared_to_large-owned", "op_push_tendril", "op_try_subtendril", "op_push_big", "op_read_to_tendril", "op_clone_from"];
         if self.prop == TProp::C12 {
             v.push("ledger_tracked_allocations");
         }
